@@ -1,0 +1,92 @@
+//go:build verif
+// +build verif
+
+package forwarder
+
+// Verification-only additions (tag "verif"): run ONE forwarder session with the real code — NewForwarder,
+// loadState, toDescs/mergeDescs/setDescs (what init+sync do), newWorker + worker.run (what runWorker does) and
+// runPersistState — but with an injected sink and client. Forwarder.newWorkerConfig builds its sinks with
+// sink.NewSink, which knows stdout and syslog only; everything else is the production code path.
+
+import (
+	"context"
+	"errors"
+	"fmt"
+	"time"
+
+	"github.com/jrivets/log4g"
+	"github.com/logrange/logrange/api"
+	"github.com/logrange/logrange/pkg/forwarder/sink"
+	"github.com/logrange/logrange/pkg/storage"
+	"github.com/logrange/logrange/pkg/utils"
+)
+
+// VerifStorageKey is the key the forwarder state is stored under.
+const VerifStorageKey = storageKeyName
+
+// VerifSession is one run of a forwarder with exactly one worker (cfg.Workers[0]).
+type VerifSession struct {
+	f *Forwarder
+	w *worker
+}
+
+// StartVerifSession does what Forwarder.Run does for a one-worker config, except that the worker gets snk
+// instead of sink.NewSink(cfg.Workers[0].Sink) and that no config-reload ticker is started.
+func StartVerifSession(ctx context.Context, cfg *Config, cli api.Client, st storage.Storage, snk sink.Sink) (*VerifSession, error) {
+	if cfg == nil || len(cfg.Workers) != 1 {
+		return nil, errors.New("verif: exactly one worker expected")
+	}
+	f, err := NewForwarder(cfg, cli, st)
+	if err != nil {
+		return nil, err
+	}
+	// init(): loadState, then sync()
+	if err := f.loadState(); err != nil {
+		return nil, err
+	}
+	nd := f.toDescs(f.cfg)
+	md := f.mergeDescs(f.getDescs(), nd)
+	d, ok := md[cfg.Workers[0].Name]
+	if !ok {
+		return nil, fmt.Errorf("verif: no descriptor for worker %q", cfg.Workers[0].Name)
+	}
+	// runWorker() with the injected sink
+	w := newWorker(&workerConfig{
+		desc:   d,
+		sink:   snk,
+		rpcc:   cli,
+		logger: f.logger.WithId(fmt.Sprintf("[%v]", d.Worker.Name)).(log4g.Logger),
+	})
+	f.waitWg.Add(1)
+	go func(w *worker) {
+		_ = w.run(ctx)
+		f.waitWg.Done()
+	}(w)
+	f.workers.Store(workers{d.Worker.Name: w})
+	f.setDescs(md)
+	f.runPersistState(ctx)
+	return &VerifSession{f: f, w: w}, nil
+}
+
+// StopGracefully asks the worker to end after the iteration in flight (worker.stopGracefully).
+func (s *VerifSession) StopGracefully() { s.w.stopGracefully() }
+
+// IsStopped reports worker.isStopped.
+func (s *VerifSession) IsStopped() bool { return s.w.isStopped() }
+
+// Position is the position the worker's descriptor holds (what persistState writes).
+func (s *VerifSession) Position() string { return s.w.desc.getPosition() }
+
+// PersistNow is one tick of the periodic persist job.
+func (s *VerifSession) PersistNow() error { return s.f.persistState() }
+
+// Wait waits for the worker and the persist job (they end when the context is cancelled); Forwarder.Close
+// swallows its time-out, so the wait group is awaited here first to be able to report it.
+func (s *VerifSession) Wait() error {
+	ok := utils.WaitWaitGroup(&s.f.waitWg, time.Minute)
+	_ = s.f.Close()
+	if !ok {
+		return errors.New("verif: close timeout")
+	}
+	return nil
+}
